@@ -17,6 +17,22 @@ The BLOCK3 state machine (PsV.Nnls.block3Run, the object of block3_nonneg_invari
 with exact solves on the same systems and its exit kind is compared with the C run; on non-degenerate systems
 also its branch trace (full / boundary / walk counts).
 Constants (KKT_TOL, max_iter, the BLOCK3 tolerance formula) are re-read from the source on every run.
+
+Input classes (harness/nnls_harness.cpp): kinds 0-7 small (n <= 12, exact SPD certificate + exhaustive reference) and large
+sparse banded (n <= 400, kktCheck only).  Kinds 8-10 are DENSE systems with n = 30..220 and small-integer entries
+(kktCheck only): they are the classes on which modify_factor (cholesky_solve.c) takes its row-by-row path
+(cholmod_rowadd / cholmod_rowdel on the full-size factor) for SEVERAL rows in one call, which needs a nearly dense factor
+with n > ~14 x (rows changed), an earlier update request that built the full-size factor, and then >= 2 coefficients
+released (or constrained) together:
+   8  dense integer Gram B'B+I with random / mostly positive / planted right-hand sides,
+   9  staged release: strictly diagonally dominant signed graph Laplacian + I with a dense core and a chain of small groups
+      that are released together one iteration after the other (group sizes chosen for nnls_normal_block3 and, with a
+      first group >= 8, for the block-switching rule of nnls_normal_block_updown), optionally scaled by powers of two,
+  10  overshoot: every coefficient released first, a planted group of slightly negative components constrained together
+      (multi-row deletion).
+The harness counts, from the solvers' verbose output, the runs whose factor was updated row by row and those with a call
+that changed >= 2 rows; the counts are part of the measured coverage (`rowmod`).
+The driver's work is quadratic in n on these systems; the systems are dealt to several driver processes.
 """
 import json, os, re, struct
 import psvlib
@@ -25,9 +41,9 @@ SOLVERS = {0: "nnls_lawson_hanson(normaleq=1)", 1: "nnls_normal_block", 2: "nnls
            3: "nnls_normal_block3", 4: "nnls_lawson_hanson(normaleq=0)"}
 KINDS = {0: "dense dyadic Gram", 1: "sparse dyadic Gram", 2: "degenerate (exact zeros, ties)", 3: "badly scaled 1e+-6",
          4: "arbitrary doubles", 5: "large sparse", 6: "least-squares form", 7: "extremely scaled (D over 1e+-6), Cholesky-based solvers only",
-         8: "dense integer Gram B'B+I, n 40..220 (many coefficients released at once)",
-         9: "staged release: dense signed-Laplacian+I core and a chain of small groups released together, n 30..220",
-         10: "overshoot: planted solution with a group of slightly negative components, all released first then constrained together, n 30..220"}
+         8: "dense integer Gram B'B+I, n 40..220",
+         9: "staged release (dense signed-Laplacian+I core, chain of small groups freed together), n 30..220",
+         10: "overshoot (all freed first, a planted group of negative components constrained together), n 30..220"}
 
 
 EXPECTED_CONSTANTS = {"KKT_TOL": 1e-6, "max_iter": 120, "block3_factor": 1e5}
@@ -56,6 +72,13 @@ def read_constants(ctx):
     return consts
 
 
+NREF = 12
+
+
+def spd_how(n):
+    return "an exactly certified" if n <= NREF else "a by-construction"
+
+
 def kv(s):
     return dict(p.split("=", 1) for p in s.split() if "=" in p)
 
@@ -67,7 +90,9 @@ def build(ctx, mode):
 
 def sys_replay(sysline, xline=None, implline=None):
     w = sysline.split()
-    r = {"system_line": sysline if len(sysline) < 20000 else sysline[:20000] + " ...", "n": int(w[3]), "kind": KINDS.get(int(w[2]), w[2])}
+    # the dense systems of kinds 8-10 need up to ~1.5 MB (bit patterns of every entry); only the first five violations are
+    # written to replays/, so the full line is kept: the replay then runs exactly this system
+    r = {"system_line": sysline if len(sysline) < 4000000 else sysline[:20000] + " ...", "n": int(w[3]), "kind": KINDS.get(int(w[2]), w[2])}
     if xline: r["call_line"] = xline
     if implline: r["impl_line"] = implline[:4000]
     r["replay_cmd"] = "python3 bin/check.py C11 --replay <this file>"
@@ -152,7 +177,7 @@ def evaluate(ctx, consts, cases, impl, nref, acc, tag):
         name = SOLVERS[solver]
         if m[0] == "FAIL":
             acc["evaluations"] += 1
-            what = "%s %s on a certified SPD system (n=%d, %s)" % (name, "did not terminate within the time limit in 3 attempts" if i.startswith("hang") else "aborted: " + i, n, KINDS[kind])
+            what = "%s %s on %s SPD system (n=%d, %s)" % (name, "did not terminate within the time limit in 3 attempts" if i.startswith("hang") else "aborted: " + i, spd_how(n), n, KINDS[kind])
             ctx.report("%s:%s" % (name, i.split()[0]), sys_replay(cur, c, i), what)
             continue
         o = kv(out_of[idx]); info = kv(i.split("|")[1]) if "|" in i else {}
@@ -193,8 +218,12 @@ def evaluate(ctx, consts, cases, impl, nref, acc, tag):
             if int(info.get("mdel", "0")) > 0: ru["runs_with_multirow_delete"] += 1
             ru["max_rows_in_one_call"] = max(ru["max_rows_in_one_call"], int(info.get("maxrows", "0")))
         if o.get("finite") != "1":
-            ctx.report("%s:nonfinite" % name, sys_replay(cur, c, i), "%s returned a non-finite vector on a certified SPD system (n=%d, %s)" % (name, n, KINDS[kind])); continue
+            ctx.report("%s:nonfinite" % name, sys_replay(cur, c, i), "%s returned a non-finite vector on %s SPD system (n=%d, %s)" % (name, spd_how(n), n, KINDS[kind])); continue
         rel = float(o.get("rel", "nan")); acc["worst_rel"][name] = max(acc["worst_rel"].get(name, 0.0), rel if o.get("kkt") == "1" else 0.0)
+        if kind >= 8 and o.get("kkt") == "1":
+            # margin of the tolerance on the dense medium classes (largest violation / largest tolerance component; indicative)
+            try: acc["medium_worst_need_over_tol"][name] = max(acc["medium_worst_need_over_tol"].get(name, 0.0), float(o.get("need", "0")) / float(o.get("tolmax", "1")))
+            except (ValueError, ZeroDivisionError): pass
         bad = None
         if solver == 3 and o.get("nonneg") != "1": bad = "returned a negative component (negpart=%s): the solver used by fitting must be exactly non-negative" % o.get("negpart")
         elif o.get("negok") != "1": bad = "returned a component below -tolerance (negpart=%s)" % o.get("negpart")
@@ -204,9 +233,11 @@ def evaluate(ctx, consts, cases, impl, nref, acc, tag):
             if cap and solver != 3:
                 acc["cap_nonkkt"][name] = acc["cap_nonkkt"].get(name, 0) + 1   # non-convergence exit: reported separately, no optimality claim
                 continue
+            acc["violations_by_kind"][KINDS[kind]] = acc["violations_by_kind"].get(KINDS[kind], 0) + 1
+            acc["violations_by_solver"][name] = acc["violations_by_solver"].get(name, 0) + 1
             sig = "%s:%s" % (name, "nonkkt-after-walk" if (solver == 3 and info.get("walk", "0") != "0") else "nonkkt")
             ctx.report(sig, sys_replay(cur, c, i + " || driver: " + out_of[idx]),
-                       "%s %s on a certified SPD system (n=%d, %s; trace %s)%s" % (name, bad, n, KINDS[kind], i.split("|")[1].strip() if "|" in i else "", "; iteration cap reached" if cap else ""))
+                       "%s %s on %s SPD system (n=%d, %s; trace %s)%s" % (name, bad, spd_how(n), n, KINDS[kind], i.split("|")[1].strip() if "|" in i else "", "; iteration cap reached" if cap else ""))
         else:
             nz = tuple(z != "0" for z in i[3:].split("|")[0].split())
             acc["distinct"].add((cur.split()[1], tag, solver, nz))
@@ -217,7 +248,7 @@ def evaluate(ctx, consts, cases, impl, nref, acc, tag):
 def new_acc():
     return {"systems": 0, "evaluations": 0, "not_spd_skipped": 0, "by_solver": {}, "cap_exits": {}, "cap_nonkkt": {}, "hang_retries": 0,
             "worst_rel": {}, "distinct": set(), "b3_runs": 0, "b3_exit_mismatch": 0, "b3_trace_equal": 0, "b3_trace_diff": 0,
-            "b3_trace_diff_by_kind": {}, "b3_trace_diff_nondegenerate": 0, "b3_trace_diff_samples": [], "b3_model_walks": 0, "block3_walk_cases": 0, "block3_boundary_cases": 0, "rowmod": {}}
+            "b3_trace_diff_by_kind": {}, "b3_trace_diff_nondegenerate": 0, "b3_trace_diff_samples": [], "b3_model_walks": 0, "block3_walk_cases": 0, "block3_boundary_cases": 0, "rowmod": {}, "violations_by_kind": {}, "violations_by_solver": {}, "medium_worst_need_over_tol": {}}
 
 
 def run(ctx):
@@ -241,7 +272,7 @@ def run(ctx):
                           "NNLS harness %s (rc=%d): %s" % ("timed out" if rc == 124 else "aborted", rc, err[-600:]))
             continue
         dist[mode] = json.load(open(base + ".stats"))
-        evaluate(ctx, consts, base + ".in", base + ".impl", 12, acc, mode)
+        evaluate(ctx, consts, base + ".in", base + ".impl", NREF, acc, mode)
     finish(ctx, acc, dist, consts)
 
 
@@ -261,12 +292,16 @@ def finish(ctx, acc, dist, consts):
     ctx.coverage["input_distribution"] = {"harness": dist, "kinds": KINDS, "constants_from_source": consts}
     ctx.coverage["measured"] = d
     ctx.assumptions += [
-        "positive definiteness of the generated systems: exact certificate (symmetric, all elimination pivots > 0 in Rat) for n <= 12; Sylvester's criterion itself is not formalised; larger systems are B'B + I in exact integer arithmetic",
+        "positive definiteness of the generated systems: exact certificate (symmetric, all elimination pivots > 0 in Rat) for n <= 12; Sylvester's criterion itself is not formalised; larger systems are SPD by construction in exact integer arithmetic (B'B + I; kinds 9/10: symmetric, strictly diagonally dominant with positive diagonal = weighted signed-graph Laplacian + I, possibly scaled D A D by powers of two) - symmetry is re-checked exactly by the driver, definiteness of these is trusted to the generator",
+        "the matrix is handed to the solvers in full storage (both triangles, stype 0) as glamfit does; CHOLMOD's symmetric storage (stype != 0) is outside the checked input space (the solvers do not support it: see design notes)",
         "certificate checking: the solvers' convergence for all inputs is not proved (and is false at the iteration caps); iteration-cap exits are counted separately",
         "tolerance tol_i = tolS + negpart*sum|A_ij| + 64 n 2^-53 (sum_j |A_ij| x_j + |b_i|) (Cholesky-based solvers) / tolS + 64 max(n,rows) 2^-53 sum_i(sum_j |A|_ij x_j + |b|_i) (Lawson-Hanson: QR is not invariant under scaling; |A|=|M|'|M|, |b|=|M|'|v| in least-squares form): the rounding term is an envelope for CHOLMOD/SPQR backward error, measured worst componentwise ratio reported per solver",
         "OMP_NUM_THREADS=1; a scheduling-dependent hang of walk_descents (property C12) is retried up to 3 times and counted",
         "Lawson-Hanson relies on SuiteSparseQR's default rank tolerance; badly scaled systems keep column norms within 1e6 of each other (A entries over 1e+-6)",
     ]
+    if acc["violations_by_kind"]: ctx.note("not-KKT results by input class: %s by solver: %s" % (acc["violations_by_kind"], acc["violations_by_solver"]))
+    ctx.note("row-by-row factor updates (runs with any / with >= 2 rows added / deleted in one call): %s" % {
+        k.replace("nnls_normal_", ""): "%d/%d/%d" % (v["runs_with_row_updates"], v["runs_with_multirow_add"], v["runs_with_multirow_delete"]) for k, v in acc["rowmod"].items()})
     ctx.note("systems=%d evaluations=%d cap_exits=%s cap_nonkkt=%s hang_retries=%d worst_rel=%s b3: runs=%d exit_mismatch=%d trace_equal=%d trace_diff=%d C-walk-cases=%d" % (
         acc["systems"], acc["evaluations"], acc["cap_exits"], acc["cap_nonkkt"], acc["hang_retries"],
         {k: "%.1e" % v for k, v in acc["worst_rel"].items()}, acc["b3_runs"], acc["b3_exit_mismatch"], acc["b3_trace_equal"], acc["b3_trace_diff"], acc["block3_walk_cases"]))
@@ -293,5 +328,5 @@ def replay(ctx, path):
                 f.write("X %s %d %d\n" % (sid, s, bits(tol)))
     rc, out, err = ctx.run([exe, "replay", base + ".in", base + ".impl", "20"], timeout=600, env={"OMP_NUM_THREADS": "1"})
     acc = new_acc()
-    evaluate(ctx, consts, base + ".in", base + ".impl", 12, acc, "replay")
+    evaluate(ctx, consts, base + ".in", base + ".impl", NREF, acc, "replay")
     finish(ctx, acc, {}, consts)
